@@ -42,7 +42,7 @@ def gen_name(rng, used, long_ok=True):
     for _ in range(100):
         r = rng.below(20)
         if r == 0 and long_ok:
-            n = rng.range(200, 256)
+            n = rng.choice([256, 256, 255, rng.range(200, 254)])
         elif r < 4:
             n = rng.range(13, 60)
         else:
@@ -86,9 +86,9 @@ def gen_att(rng, fmt, used, big=0):
     return dict(name=gen_name(rng, used), type=t, nelems=n, value=val)
 
 
-def gen_schema(rng, big=0):
+def gen_schema(rng, big=0, fmt=None):
     """a specification-valid schema WITHOUT layout (begins / vsize are assigned by layout())"""
-    fmt = rng.choice([1, 2, 5])
+    fmt = fmt or rng.choice([1, 2, 5])
     dn, an, vn = set(), set(), set()
     ndims = rng.choice([0, 1, 2, 3, 3, 4, 6])
     dims = []
@@ -118,13 +118,13 @@ def gen_schema(rng, big=0):
 
 
 def is_rec(s, v):
-    return bool(v['dimids']) and s['dims'][v['dimids'][0]]['size'] == 0
+    return bool(v['dimids']) and v['dimids'][0] < len(s['dims']) and s['dims'][v['dimids'][0]]['size'] == 0
 
 
 def nelems(s, v):
     n = 1
     for i in v['dimids']:
-        n *= s['dims'][i]['size'] or 1
+        n *= (s['dims'][i]['size'] or 1) if i < len(s['dims']) else 1
     return n
 
 
@@ -186,7 +186,7 @@ def layout(rng, s, xsz, exotic=True):
         tags.add('rec-var')
     if any(a['nelems'] == 0 for a in all_atts(s)):
         tags.add('zero-length-att')
-    if any(max(n) > 127 for n in all_names(s)):
+    if any(n and max(n) > 127 for n in all_names(s)):
         tags.add('utf8-name')
     if any(len(n) > 100 for n in all_names(s)):
         tags.add('long-name')
@@ -272,7 +272,7 @@ def lean_batch(drv, lines):
     return out[:len(lines)]
 
 
-def run_harness(exe, n, reqlines, wd, tag, max_restarts=6):
+def run_harness(exe, n, reqlines, wd, tag, max_restarts=3):
     """run a harness over all request lines on n ranks; a request on which the program dies (signal,
     watchdog alarm, abort) gets the answer 'CRASH <rc>' on every rank and the run resumes after it.
     returns (outs[rank][request], note)"""
@@ -364,7 +364,7 @@ def run_check(tier, seed):
                '-I' + os.path.join(tree, 'src/drivers/include'), '-I' + os.path.join(tree, 'src/include')]
         unit = cc(tree, [os.path.join(VERIF, 'harness/c04_unit.c')], os.path.join(wd, 'c04_unit'), extra=inc)
         api = cc(tree, [os.path.join(VERIF, 'harness/c04_api.c')], os.path.join(wd, 'c04_api'))
-        nvalid = 60 if tier == 'quick' else 400
+        nvalid = 120 if tier == 'quick' else 600
         cases = []          # dict(kind, schema|None, path, bytes, tags, chunks)
         schemas = []
         for i in range(nvalid):
@@ -459,24 +459,37 @@ def run_check(tier, seed):
                 cases.append(dict(kind=kind, schema=None, path=path, data=dd, tags={kind},
                                   chunks=[36, rng.choice([40, 52, 64, 100, 4096])]))
                 nmal += 1
-        # semantically invalid schemas through the Lean encoder
-        sem = []
-        for k in range(30 if tier == 'quick' else 150):
-            s = gen_schema(rng)
-            s['xsz'] = 0
-            sem.append(s)
-        rs = lean_batch(drv, ['ENC ' + ' '.join(schema_tokens(s)) for s in sem])
+        # semantically invalid schemas through the Lean encoder: every kind x every format
         sem2 = []
-        for s, l in zip(sem, rs):
+        reps = 2 if tier == 'quick' else 8
+        for kind in range(NBREAK):
+            for fmt in (1, 2, 5):
+                for rep in range(reps):
+                    for attempt in range(40):
+                        s = gen_schema(rng, fmt=fmt)
+                        s['xsz'] = 0
+                        k = break_schema(rng, s, kind, rep, pre=True)
+                        if k:
+                            s['broken'] = k
+                            s['kindno'], s['rep'] = kind, rep
+                            sem2.append(s)
+                            break
+        rs = lean_batch(drv, ['ENC ' + ' '.join(schema_tokens(s)) for s in sem2])
+        for s, l in zip(sem2, rs):
             s['xsz'] = int(l.split()[1])
             layout(rng, s, s['xsz'], exotic=False)
-            kind = break_schema(rng, s)
-            if kind:
-                s['broken'] = kind
-                sem2.append(s)
+            break_schema(rng, s, s['kindno'], s['rep'], pre=False)
         rs = lean_batch(drv, ['ENC ' + ' '.join(schema_tokens(s)) for s in sem2])
         for k, (s, l) in enumerate(zip(sem2, rs)):
             hdr = unhx(l.split()[0])
+            if 'badtype' in s:
+                vk, code = s['badtype']
+                s2 = dict(s)
+                s2['vars'] = s['vars'][:vk + 1]
+                end = int(lean_batch(drv, ['ENC ' + ' '.join(schema_tokens(s2))])[0].split()[1])
+                w, o = (8, 8) if s['fmt'] == 5 else (4, 8 if s['fmt'] == 2 else 4)
+                pos = end - o - w - 4
+                hdr = hdr[:pos] + code.to_bytes(4, 'big') + hdr[pos + 4:]
             dd = hdr + bytes(64)
             path = os.path.join(wd, 's%d.nc' % k)
             open(path, 'wb').write(dd)
@@ -582,7 +595,7 @@ def run_check(tier, seed):
             s = c['schema']
             if V.failing_input('C04:' + sig.split(':')[0], 'a specification-valid file is not read back exactly (%s)' % sig,
                                dict(how=sig, schema=' '.join(schema_tokens(s)), file_hex=hx(c['data'])[:20000], implementation=(got or '')[:3000],
-                                    expected=(exp or '')[:3000], harness='harness/c04_unit.c / harness/c04_api.c'), tag='in%d' % nfail):
+                                    expected=str(exp or '')[:3000], harness='harness/c04_unit.c / harness/c04_api.c'), tag='in%d' % nfail):
                 nfail += 1
                 if nfail >= 5:
                     break
@@ -598,52 +611,95 @@ def run_check(tier, seed):
         cleanup(wd)
 
 
-def break_schema(rng, s):
-    """make a laid-out valid schema semantically invalid in one way; returns the kind or None"""
-    r = rng.below(10)
+NBREAK = 10
+
+
+def break_schema(rng, s, r, rep, pre):
+    """make a valid schema semantically invalid in way number r.  Called twice: pre=True before the
+    layout (changes that alter the header length or the shapes), pre=False after it (changes of the
+    layout itself).  Returns the kind, or None if the schema has no place for this kind."""
     vs, ds = s['vars'], s['dims']
-    if r == 0 and vs and ds:
-        v = rng.choice(vs)
-        v['dimids'] = v['dimids'] + [len(ds) + rng.below(3)]
+    if r == 0:
+        if not (vs and ds):
+            return None
+        if pre:
+            v = rng.choice(vs)
+            v['dimids'] = v['dimids'] + [len(ds) + [0, 1, 1000][rep % 3]]      # rep 0: the boundary value
         return 'dimid-out-of-range'
-    if r == 1 and len(ds) >= 2:
-        a, b = rng.shuffle(list(range(len(ds))))[:2]
-        ds[a]['size'] = 0
-        ds[b]['size'] = 0
+    if r == 1:
+        if len(ds) < 2:
+            return None
+        if pre:
+            a, b = rng.shuffle(list(range(len(ds))))[:2]
+            ds[a]['size'] = 0
+            ds[b]['size'] = 0
         return 'two-record-dims'
-    if r == 2 and vs and s['unlim'] >= 0 and len(ds) >= 2:
-        v = rng.choice(vs)
-        other = rng.choice([i for i in range(len(ds)) if i != s['unlim']])
-        v['dimids'] = [other, s['unlim']]
+    if r == 2:
+        if not (vs and s['unlim'] >= 0 and len(ds) >= 2):
+            return None
+        if pre:
+            v = rng.choice(vs)
+            other = rng.choice([i for i in range(len(ds)) if i != s['unlim']])
+            v['dimids'] = [other, s['unlim']]
         return 'record-dim-not-first'
-    if r == 3 and s['fmt'] < 5:
+    if r == 3:
         pool = all_atts(s) + vs
-        if pool:
-            rng.choice(pool)['type'] = rng.range(7, 11)
-            return 'extended-type-in-cdf12'
+        if rep % 2 == 1 or s['fmt'] == 5:
+            # a type code outside 1..11 (or 1..6): patched into the bytes after encoding (the Lean
+            # encoder cannot express it), at the type field of variable k
+            if not vs:
+                return None
+            if pre:
+                s['badtype'] = (rng.below(len(vs)), [12, 0, 255, 7][rep % 4] if s['fmt'] == 5 else [7, 0, 12, 11][rep % 4])
+                if s['fmt'] == 5 and s['badtype'][1] == 7:
+                    s['badtype'] = (s['badtype'][0], 13)
+            return 'bad-type-code'
+        if not pool:
+            return None
+        if pre:
+            x = rng.choice(pool)
+            x['type'] = [7, 11, 9, 10][rep % 4]
+            if 'nelems' in x:
+                x['value'] = x['value'][:x['nelems']] + bytes(x['nelems'] * TSIZE[x['type']])
+                x['value'] = x['value'][:x['nelems'] * TSIZE[x['type']]]
+        return 'extended-type-in-cdf12'
     if r == 4:
         pool = ds + all_atts(s) + vs
-        if pool:
-            rng.choice(pool)['name'] = bytes(97 + rng.below(26) for _ in range(rng.range(257, 300)))
-            return 'name-too-long'
-    if r == 5 and len(vs) >= 2:
-        i = rng.below(len(vs) - 1)
-        vs[i]['begin'], vs[i + 1]['begin'] = vs[i + 1]['begin'], vs[i]['begin']
+        if not pool:
+            return None
+        if pre:
+            rng.choice(pool)['name'] = bytes(97 + rng.below(26) for _ in range([257, 258, 300][rep % 3]))
+        return 'name-too-long'
+    if r == 5:
+        if len(vs) < 2:
+            return None
+        if not pre:
+            i = rng.below(len(vs) - 1)
+            vs[i]['begin'], vs[i + 1]['begin'] = vs[i + 1]['begin'], vs[i]['begin']
         return 'begins-swapped'
-    if r == 6 and vs:
-        v = rng.choice(vs)
-        v['begin'] = rng.choice([0, 4, s['xsz'] - 4, max(0, v['begin'] - 4)])
+    if r == 6:
+        if not vs:
+            return None
+        if not pre:
+            v = rng.choice(vs)
+            v['begin'] = [max(0, v['begin'] - 1), s['xsz'] - 1, 0, max(0, v['begin'] - 4)][rep % 4]
         return 'begin-too-small'
-    if r == 7 and vs and ds:
-        d = rng.choice(ds)
-        if d['size']:
-            d['size'] = rng.choice([2**31 - 1, 2**31, 2**32 - 1, 2**29, 2**30])
-            return 'huge-dimension'
+    if r == 7:
+        cand = [d for d in ds if d['size']]
+        if not (vs and cand):
+            return None
+        if pre:
+            rng.choice(cand)['size'] = rng.choice([2**31 - 1, 2**31, 2**32 - 1, 2**29, 2**30, 2**31 - 4, 2**32 - 4])
+        return 'huge-dimension'
     if r == 8:
-        s['numrecs'] = rng.choice([2**31 - 1, 2**32 - 1, 2**31])
+        if pre:
+            s['numrecs'] = [2**31 - 1, 2**32 - 1, 2**31][rep % 3]
         return 'huge-numrecs'
-    if r == 9 and vs:
-        rng.choice(vs)['name'] = b''
+    if r == 9:
+        if not vs:
+            return None
+        if pre:
+            rng.choice(vs)['name'] = b''
         return 'empty-name'
     return None
 
